@@ -29,6 +29,11 @@ type Walker struct {
 	// depends on (value-preserving library calls), or ok=false for a leaf.
 	ThroughCalls func(c *ssa.Call) (deps []ssa.Value, ok bool)
 
+	// Opaque, if set, makes calls to the given repository functions be treated
+	// like external ones (handled by ThroughCalls), e.g. deep-copy helpers whose
+	// result depends on their argument through stores the walk cannot follow.
+	Opaque func(callee *ssa.Function) bool
+
 	// NoFieldJoin disables the program-wide join for field loads (the load
 	// becomes a leaf).
 	NoFieldJoin bool
@@ -133,7 +138,37 @@ func (w *Walker) walk(v ssa.Value, d int) {
 		w.param(x, d)
 	case *ssa.FreeVar:
 		w.freeVar(x, d)
-	case *ssa.Alloc, *ssa.FieldAddr, *ssa.IndexAddr, *ssa.MakeClosure, *ssa.MakeSlice, *ssa.MakeMap, *ssa.MakeChan:
+	case *ssa.Alloc:
+		// a composite built in place: it depends on everything stored into it
+		n := 0
+		var into func(a ssa.Value, depth int)
+		into = func(a ssa.Value, depth int) {
+			if a.Referrers() == nil || depth > 3 {
+				return
+			}
+			for _, r := range *a.Referrers() {
+				switch u := r.(type) {
+				case *ssa.Store:
+					if u.Addr == a {
+						n++
+						w.walk(u.Val, d+1)
+					}
+				case *ssa.FieldAddr:
+					if u.X == a {
+						into(u, depth+1)
+					}
+				case *ssa.IndexAddr:
+					if u.X == a {
+						into(u, depth+1)
+					}
+				}
+			}
+		}
+		into(x, 0)
+		if n == 0 {
+			w.leaf(v, "address/allocation")
+		}
+	case *ssa.FieldAddr, *ssa.IndexAddr, *ssa.MakeClosure, *ssa.MakeSlice, *ssa.MakeMap, *ssa.MakeChan:
 		w.leaf(v, "address/allocation")
 	case *ssa.Next, *ssa.Range, *ssa.Select:
 		w.leaf(v, "iteration/select")
@@ -147,7 +182,7 @@ func (w *Walker) result(v ssa.Value, i int, d int) {
 	switch c := v.(type) {
 	case *ssa.Call:
 		callee := StaticCallee(c)
-		if callee != nil && callee.Blocks != nil && w.P.InRepo(callee) {
+		if callee != nil && callee.Blocks != nil && w.P.InRepo(callee) && !(w.Opaque != nil && w.Opaque(callee)) {
 			n := 0
 			for _, r := range Returns(callee) {
 				if i < len(r.Results) {
